@@ -22,6 +22,10 @@ impl<T> Watch<T> {
 
     /// Acquires a lock on the watch sender.
     pub(crate) async fn lock(&self) -> sync::MutexGuard<sync::watch::Sender<T>> {
+        // Under simulation the lock may be contended: other tasks get to run before it is taken
+        // (on the multi-threaded runtime they run in parallel anyway).
+        #[cfg(era_consensus_verif)]
+        zksync_concurrency::verif::sched_point().await;
         self.send.lock().await
     }
 
